@@ -79,8 +79,24 @@ fn roundtrip() -> RunResult {
         2 => {
             let dl = sim::range("delim.len", 1, 3) as usize;
             let delim: Vec<u8> = (0..dl).map(|i| 0xA0 + i as u8).collect();
-            // payload bytes avoid every delimiter byte, so no accidental match across a boundary either
-            let frames: Vec<Vec<u8>> = (0..nframes).map(|_| gen_frame(120, &delim)).collect();
+            // a payload never contains the delimiter; with a delimiter of several (distinct) bytes it may
+            // contain any part of it, the first byte alone included
+            let frames: Vec<Vec<u8>> = (0..nframes)
+                .map(|_| {
+                    let mut f = gen_frame(120, &delim);
+                    if dl > 1 && !f.is_empty() && sim::flip("frame.delimiter.parts", 1, 2) {
+                        for _ in 0..1 + sim::range("frame.parts", 0, 3) {
+                            let at = sim::range("frame.part.at", 0, f.len() as u64 - 1) as usize;
+                            f[at] = delim[sim::choose("frame.part.byte", dl)];
+                        }
+                        // no complete delimiter by accident
+                        while let Some(i) = f.windows(dl).position(|w| w == &delim[..]) {
+                            f[i + dl - 1] = 0x11;
+                        }
+                    }
+                    f
+                })
+                .collect();
             sim::log(|| format!("AnyDelimited({delim:02x?}), frames {:?}", frames.iter().map(|f| f.len()).collect::<Vec<_>>()));
             bytes_roundtrip(AnyDelimited::new(&delim), frames, false)
         }
